@@ -349,4 +349,120 @@ theorem crowd_call_eq_of_half (closer : Nat → Bool) (population : List Sel.Ind
     have hl := (crowd_size (closer := closer) (population := population) (target := target)).2 full hd
     simp [List.take_of_length_le (by omega : full.length ≤ target)]
 
+/-! ## probabilistic crowding and probabilistic tournament: members and count for EVERY outcome of the draws -/
+
+/-- `ProbabilisticCrowding._return_most_fit` returns one of its two arguments, whatever the coin -/
+theorem prob_pick_member (coin : Nat → Bool) (c p : Sel.Indv) (k : Nat) :
+    Sel.probMostFit coin c p k = c ∨ Sel.probMostFit coin c p k = p := by
+  unfold Sel.probMostFit
+  split
+  · exact .inl rfl
+  · split
+    · exact .inr rfl
+    · split
+      · exact .inl rfl
+      · exact .inr rfl
+
+/-- probabilistic crowding returns exactly `target` individuals (for the targets the algorithm accepts); every slot
+holds its parent or the child paired with it by the distance rule, for every outcome of the random numbers -/
+theorem prob_crowd_member_count (coin closer : Nat → Bool) (population : List Sel.Indv) (target : Nat)
+    (out : List Sel.Indv) (h : Sel.probCrowdingCall coin closer population target = some out) :
+    out.length = target ∧
+    ∀ k, k < target / 2 → ∃ p1 p2 c1 c2,
+      population[2*k]? = some p1 ∧ population[2*k+1]? = some p2 ∧
+      population[population.length / 2 + 2*k]? = some c1 ∧
+      population[population.length / 2 + 2*k+1]? = some c2 ∧
+      (out[2*k]? = some p1 ∨ out[2*k]? = some (if closer k then c1 else c2)) ∧
+      (out[2*k+1]? = some p2 ∨ out[2*k+1]? = some (if closer k then c2 else c1)) := by
+  unfold Sel.probCrowdingCall at h
+  cases hf : Sel.crowding (Sel.probMostFit coin) closer population target with
+  | none => simp [hf] at h
+  | some full =>
+    simp only [hf, Option.map_some, Option.some.injEq] at h
+    subst h
+    obtain ⟨_, he2, hle, hlen, _, hin⟩ := Sel.crowding_spec hf
+    refine ⟨by simp [hlen]; omega, ?_⟩
+    intro k hk
+    obtain ⟨p1, p2, c1, c2, h1, h2, h3, h4, ho1, ho2⟩ := hin k hk
+    refine ⟨p1, p2, c1, c2, h1, h2, h3, h4, ?_, ?_⟩
+    · have hlt : 2 * k < target := by omega
+      rw [List.getElem?_take_of_lt hlt, ho1]
+      rcases prob_pick_member coin (if closer k then c1 else c2) p1 (2*k) with e | e <;> rw [e]
+      · exact .inr rfl
+      · exact .inl rfl
+    · have hlt : 2 * k + 1 < target := by omega
+      rw [List.getElem?_take_of_lt hlt, ho2]
+      rcases prob_pick_member coin (if closer k then c2 else c1) p2 (2*k+1) with e | e <;> rw [e]
+      · exact .inr rfl
+      · exact .inl rfl
+
+/-- `np.searchsorted(np.cumsum(w), r)` is a valid index as soon as `r` does not exceed the total weight (the code draws
+`r = random() * sum(w)` with `random() < 1`; NaN members get weight 0) -/
+theorem searchLeft_lt (w : List Nat) (r : Nat) (hne : w ≠ []) (hr : r ≤ w.sum) :
+    Sel.searchLeft (Sel.cumsum w) r < w.length := by
+  induction w generalizing r with
+  | nil => exact absurd rfl hne
+  | cons a rest ih =>
+    simp only [Sel.cumsum, Sel.searchLeft, List.filter_cons, List.length_cons]
+    by_cases ha : a < r
+    · simp only [ha, decide_true, if_true, List.length_cons, Nat.add_lt_add_iff_right]
+      cases rest with
+      | nil => simp [List.sum_cons] at hr; omega
+      | cons b rest' =>
+        have hr' : r - a ≤ (b :: rest').sum := by simp [List.sum_cons] at hr ⊢; omega
+        have := ih (r - a) (by simp) hr'
+        simp only [Sel.searchLeft] at this
+        have hmap : ((Sel.cumsum (b :: rest')).map (a + ·)).filter (· < r) =
+            ((Sel.cumsum (b :: rest')).filter (· < r - a)).map (a + ·) := by
+          rw [List.filter_map]
+          congr 1
+          apply List.filter_congr
+          intro x _
+          simp only [Function.comp, decide_eq_decide]
+          omega
+        rw [hmap, List.length_map]
+        exact this
+    · simp only [ha, decide_false, Bool.false_eq_true, if_false]
+      have : ((Sel.cumsum rest).map (a + ·)).filter (· < r) = [] := by
+        rw [List.filter_eq_nil_iff]
+        intro x hx
+        simp only [List.mem_map] at hx
+        obtain ⟨y, _, rfl⟩ := hx
+        simp only [decide_eq_true_eq]; omega
+      rw [this]; simp
+
+/-- a probabilistic tournament returns as many winners as tournaments, each a member of its sample, whenever the index is
+in range (or every member is NaN) -/
+theorem prob_tour_member_count {pop : List Sel.Indv} {samples : List (List Nat × Nat)} {w : List Sel.Indv}
+    (h : Sel.probTournament pop samples = some w) :
+    w.length = samples.length ∧
+    ∀ k (h1 : k < w.length) (h2 : k < samples.length), ∃ i ∈ samples[k].1, pop[i]? = some w[k] := by
+  unfold Sel.probTournament at h
+  have hmap := ListAux.mapM_eq_some_iff.mp h
+  have hlen : w.length = samples.length := by simpa using (congrArg List.length hmap).symm
+  refine ⟨hlen, ?_⟩
+  intro k h1 h2
+  have hk : Sel.probTournamentWinner pop samples[k].1 samples[k].2 = some w[k] := by
+    have h3 := congrArg (·[k]?) hmap
+    simpa [List.getElem?_map, List.getElem?_eq_getElem h1, List.getElem?_eq_getElem h2] using h3
+  unfold Sel.probTournamentWinner at hk
+  cases hm : (samples[k].1).mapM (pop[·]?) with
+  | none => simp [hm] at hk
+  | some members =>
+    simp only [hm] at hk
+    have hmm := ListAux.mapM_eq_some_iff.mp hm
+    have hmem : ∀ (j : Nat) (m : Sel.Indv), members[j]? = some m → ∃ i ∈ samples[k].1, pop[i]? = some m := by
+      intro j m hj
+      have h4 := congrArg (·[j]?) hmm
+      simp only [List.getElem?_map, hj] at h4
+      cases hs : (samples[k].1)[j]? with
+      | none => simp [hs] at h4
+      | some i =>
+        simp only [hs, Option.map_some] at h4
+        refine ⟨i, List.mem_of_getElem? hs, ?_⟩
+        injection h4 with h4
+    split at hk
+    · exact hmem 0 _ hk
+    · exact hmem _ _ hk
+
 end Bingo.C08
